@@ -89,7 +89,7 @@ def plan(tier, seed):
     scs += [dict(part='B', cell=ci, cl=k, place=list(pl)) for ci in range(len(GCELLS)) for k in range(4) for pl in places]
     return dict(scenarios=scs, exhaustive=True, chunk=2,
                 menus=dict(symbols=len(ELS), distances=['cutoff-1e-3', 'cutoff+1e-3', 'exactly the cutoff (where the tie is exact in floating point)'], pair_cells=[c[0] for c in PCELLS], placements=[p[0] for p in PLACES], order=['a,b', 'b,a'],
-                           assembly_cells=[c[0] for c in GCELLS], assemblies=4, assembly_placements=len(places), shifts=shifts, narrow_cells=[c[0] for c in NCELLS], narrow_pairs=['-'.join(p) for p in NPAIRS], narrow_grid='fractional separations %r^2 x {0, 0.3, 0.5} at two anchors' % (NGRID,), permutations=['reverse', 'rotate', 'interleave'], far=[f[0] for f in FAR], far_pairs=['-'.join(p) for p in FAR_PAIRS], big=[b[0] for b in BIG]),
+                           assembly_cells=[c[0] for c in GCELLS], assemblies=4, assembly_placements=len(places), shifts=shifts, narrow_cells=[c[0] for c in NCELLS], narrow_pairs=['-'.join(p) for p in NPAIRS], narrow_grid='fractional separations %r^2 x {0, 0.3, 0.5} at six anchors (0.7 - 3.5 A below the faces)' % (NGRID,), permutations=['reverse', 'rotate', 'interleave'], far=[f[0] for f in FAR], far_pairs=['-'.join(p) for p in FAR_PAIRS], big=[b[0] for b in BIG]),
                 bounds=dict(), rule='part A: one scenario per first symbol, all partners/distances/placements/cells/orders inside; non-trivial = the pair is bonded only through a periodic image',
                 assumptions=['radius and non-metal tables frozen at the pinned commit (mc/ref/bonds.py)', 'cells have perpendicular widths > 10.4 (pairs) / 7.4 (assemblies) > the largest cutoff 5.2',
                              'assembly pairs within 1e-6 of their cutoff are not compared'])
@@ -164,7 +164,7 @@ def run(sc, ctx):
         for f in itertools.product(NGRID, NGRID, [0.0, 0.3, 0.5]):
             if f == (0.0, 0.0, 0.0):
                 continue
-            for anchor in ((0.1, 0.1, 0.1), (0.9, 0.6, 0.95)):
+            for anchor in ((0.1, 0.1, 0.1), (0.9, 0.6, 0.95), (0.26, 0.26, 0.5), (0.74, 0.26, 0.3), (0.26, 0.74, 0.7), (0.5, 0.28, 0.26)):
                 pos = wrap(np.array([np.array(anchor) @ cell, (np.array(anchor) + np.array(f)) @ cell]), cell)
                 exp, gray = ref_bonds(pos, [a, b], cell, margin=1e-6)
                 if gray:
